@@ -103,6 +103,36 @@ def build(seed, pi, subset):
     return A, B, files
 
 
+_BOUNDARIES = (4096, 8192, 65536, 131072)
+
+
+def _big_text(link: str, off: int) -> str:
+    """An ASCII page in which `link` starts exactly at byte offset `off`."""
+    head, pre, unit = "# big page\n\n", "- 240101#L0 see ", "- 240101#F0 filler line of the journal\n"
+    need = off - len(head) - len(pre)
+    n, rem = divmod(need, len(unit))
+    pad_min = len("- 240101#F1 \n")
+    if rem < pad_min:
+        n, rem = n - 1, rem + len(unit)
+    body = unit * n + "- 240101#F1 " + "x" * (rem - pad_min) + "\n"
+    text = head + body + pre + link + " here\n- 240102#L1 last line of the page\n"
+    assert text.index(link) == off and text.isascii()
+    return text
+
+
+def build_big(seed, pi):
+    """Large linking pages: one link each, starting at every byte offset around a power-of-two
+    boundary (a reader that works block-wise must not lose a link that straddles two blocks)."""
+    A, B = pairs(seed)[pi]
+    a = link_name(A)
+    files = {link_name(A) + ".zo": "# the renamed page itself\n\n- 240101#R0 a note\n", "other.zo": "# page\n\n- 240101#L0 see [[" + a + "]]\n"}
+    for form in (f"[[{a}]]", f"[[{a}#anc]]"):
+        for bnd in _BOUNDARIES:
+            for delta in range(-(len(a) + 4), 2):
+                files[f"big/{'anc' if '#' in form else 'plain'}_{bnd}_{delta + 100}.zo"] = _big_text(form, bnd + delta)
+    return A, B, files
+
+
 def _links(text):
     r = zo.compile_text(text, name="lk.zo")
     if r["exc"] or r["nsyntax"]:
@@ -124,7 +154,7 @@ def _run_case(ctx, case) -> F.Outcome:
             res.nontrivial = H.digest(case)
         return res
     pi, subset = case
-    A, B, files = build(ctx.seed, pi, subset)
+    A, B, files = build(ctx.seed, pi, subset) if subset != "big" else build_big(ctx.seed, pi)
     zd = Z.make_zdir(files, "c14")
     out = F.Outcome()
     try:
@@ -163,6 +193,11 @@ def _run_case(ctx, case) -> F.Outcome:
         out.obs = H.digest(after)
         if subset:
             out.nontrivial = H.digest(case)
+        if problem and subset == "big":
+            # (the pages are large: keep the replay file small)
+            problem = (problem[0], {k: (v if not isinstance(v, str) or len(v) < 400 else v[:150] + " ... " + v[-150:])
+                                    for k, v in problem[1].items()})
+            files = {k: (v if len(v) < 400 else f"<{len(v)} bytes>") for k, v in files.items()}
         if problem:
             out.ok = False
             out.sig = problem[0]
@@ -181,6 +216,8 @@ def _cases(ctx):
             for subset in it.combinations(range(n), k):
                 cases.append([pi, list(subset)])
         cases.append([pi, list(range(n))])
+    cases.append([0, "big"])
+    cases.append([3, "big"])
     # the notes directory spelled through a symlink / with a '..' (names given relative to it)
     for pi, (A, B) in enumerate(pairs(ctx.seed)):
         if A.startswith("ABS:"):
@@ -192,6 +229,9 @@ def _cases(ctx):
 
 
 def _sample(ctx, case):
+    if case[1] == "big":
+        A, B, files = build_big(ctx.seed, case[0])
+        return {"rename": [A, B], "pages": sorted(files)[:6] + ["..."], "sizes": sorted({len(v) for v in files.values()})[-3:]}
     if case[0] == "spelled":
         return dict(_sample(ctx, case[2:]), notes_directory_spelled=case[1])
     A, B, files = build(ctx.seed, case[0], case[1])
